@@ -42,7 +42,12 @@ pub fn fixed_point(x: &[u8], a: Fmt, b: Fmt, m1: &Mode, m2: &Mode, has_f32: bool
         }
         return false;
     }
-    let o2 = run_mode(&o1.out, m2, Some(b), b);
+    // the second hop names B, or - one time in four, where detection of the output names B - leaves it to xt
+    let detect_second = x.len() % 4 == 1 && o1.out.len() < 200_000 && xt::verif::detect_slice(&o1.out).ok().flatten().map(Fmt::from_xt) == Some(b) && !crate::known::yaml_trial_read_ahead_shape(&o1.out);
+    if detect_second {
+        acc.count("fixed_point_second_hop_detected");
+    }
+    let o2 = run_mode(&o1.out, m2, if detect_second { None } else { Some(b) }, b);
     acc.count(&format!("fixed_point_{}_{}", a.name(), b.name()));
     if !o2.verdict.is_ok() || o2.out != o1.out {
         // Known finding: a binary32 value is written to a text format with the
@@ -58,7 +63,7 @@ pub fn fixed_point(x: &[u8], a: Fmt, b: Fmt, m1: &Mode, m2: &Mode, has_f32: bool
         }
         acc.violation(Violation {
             sig: format!("fixed point {}->{}->{}: {}", a.name(), b.name(), b.name(), if o2.verdict.is_ok() { "bytes differ".to_string() } else { crate::c02_mask(&ev::truncate(o2.verdict.text(), 60)) }),
-            case: case_json(x, a, b, m1, m2, "i"),
+            case: case_json(x, a, b, m1, m2, if detect_second { "i-detected" } else { "i" }),
             observed: format!("o = [{}]; xt({}->{})(o) = {} [{}]", preview(&o1.out, 200), b.name(), b.name(), o2.verdict.show(), preview(&o2.out, 200)),
             expected: "the same bytes".into(),
         });
